@@ -374,3 +374,42 @@ v("inline-benign-extracted-method", ["C15", "C08", "C06"], "linear.py", None, No
   edits=[(_SOLVE_OLD, _SOLVE_CALL), ("    def _closure(self, A, N):", _SOLVE_HELPER)])
 v("inline-extracted-method-broken", ["C15", "C08", "C06"], "linear.py", None, None, "ANALYSIS-ERROR",
   edits=[(_SOLVE_OLD, _SOLVE_CALL), ("    def _closure(self, A, N):", _SOLVE_HELPER.replace("self.E[j, k] * sol[k]", "sol[k] * self.E[j, k]"))])
+
+# ------------------------------------------------------------------ rules added after the third round of seeded changes
+v("worklist-seed-unmarked", ["C13", "C11", "C12"], "wfsa/base.py", "        stack.append(Q)\n        visited.add(Q)\n\n        while stack:", "        stack.append(Q)\n\n        while stack:", "WORKLIST-MARK")
+v("worklist-benign-literal", ["C13", "C11", "C12"], "wfsa/base.py", "        stack = []\n        visited = set()\n\n        Q = frozendict({i: w for i, w in self.I})\n        D.add_I(Q, self.R.one)\n        stack.append(Q)\n        visited.add(Q)\n",
+  "        Q = frozendict({i: w for i, w in self.I})\n        D.add_I(Q, self.R.one)\n        stack = [Q]\n        visited = {Q}\n", None)
+v("worklist-accessible-unmarked", ["C13", "C11"], "wfsa/base.py", "        visited = set(stack)\n        while stack:", "        visited = set()\n        while stack:", "WORKLIST-MARK")
+v("param-not-forwarded", ["C19", "C18"], "lark_interface.py", "    def byte_cfg(self, *args, **kwargs):\n        return self._char_cfg(*args, **kwargs, to_bytes=True)",
+  "    def byte_cfg(self, decay=1, delimiter=\"\", charset=\"core\", recursion=\"right\"):\n        return self._char_cfg(decay=decay, delimiter=delimiter, recursion=recursion, to_bytes=True)", "PARAM-USED")
+v("param-benign-explicit", ["C19", "C18"], "lark_interface.py", "    def byte_cfg(self, *args, **kwargs):\n        return self._char_cfg(*args, **kwargs, to_bytes=True)",
+  "    def byte_cfg(self, decay=1, delimiter=\"\", charset=\"core\", recursion=\"right\"):\n        return self._char_cfg(decay=decay, delimiter=delimiter, charset=charset, recursion=recursion, to_bytes=True)", None)
+v("param-shadowed", ["C20", "C01", "C04"], "cfglm.py", "    S = _gen_nt(\"<START>\")", "    eos = EOS\n    S = _gen_nt(\"<START>\")", "PARAM-USED", optional_anchor=True)
+v("loop-carry-default-outside", ["C14"], "wfsa/field_wfsa.py", "            for a in alphabet:\n                ua = self.arcs[a] @ VA if a in self.arcs else 0 * VA\n                ub = B.arcs[a] @ VB if a in B.arcs else 0 * VB\n",
+  "            ua, ub = 0 * VA, 0 * VB\n            for a in alphabet:\n                if a in self.arcs:\n                    ua = self.arcs[a] @ VA\n                if a in B.arcs:\n                    ub = B.arcs[a] @ VB\n", "LOOP-CARRY")
+v("loop-carry-benign-default-inside", ["C14"], "wfsa/field_wfsa.py", "            for a in alphabet:\n                ua = self.arcs[a] @ VA if a in self.arcs else 0 * VA\n                ub = B.arcs[a] @ VB if a in B.arcs else 0 * VB\n",
+  "            for a in alphabet:\n                ua, ub = 0 * VA, 0 * VB\n                if a in self.arcs:\n                    ua = self.arcs[a] @ VA\n                if a in B.arcs:\n                    ub = B.arcs[a] @ VB\n", None)
+v("builder-break-locnorm", ["C20"], "cfglm.py", "        if Z[r.head] == 0:\n            continue", "        if Z[r.head] == 0:\n            break", "BUILDER-BREAK", optional_anchor=True)
+v("builder-break-regex", ["C18", "C19"], "lark_interface.py", "            if K == 0:\n                continue\n            if i in fsm.finals:\n                m.add_F(name(i), 1 / K)", "            if K == 0:\n                break\n            if i in fsm.finals:\n                m.add_F(name(i), 1 / K)", "BUILDER-BREAK")
+v("identity-start-symbol", ["C02", "C06", "C01"], "cfg.py", "                null_weight[x] == self.R.zero or x == self.S", "                null_weight[x] == self.R.zero or x is self.S", "GEN-IDENTITY")
+v("tol-onesided", ["C14"], "wfsa/field_wfsa.py", "                if not approx_equal(u - q, u):\n                    worklist.append(u)\n                    basis.append(q)\n        return np.array(basis)",
+  "                if q.max() > 1e-8 + 1e-5 * u.max():\n                    worklist.append(u)\n                    basis.append(q)\n        return np.array(basis)", "TOL-TWOSIDED")
+v("tol-benign-abs", ["C14"], "wfsa/field_wfsa.py", "                if not approx_equal(u - q, u):\n                    worklist.append(u)\n                    basis.append(q)\n        return np.array(basis)",
+  "                if np.abs(q).max() > 1e-8 + 1e-5 * np.abs(u).max():\n                    worklist.append(u)\n                    basis.append(q)\n        return np.array(basis)", None)
+v("lark-vocab-filtered", ["C19"], "lark_interface.py", "V={t.name for t in self.terminals})", "V={t.name for t in self.terminals if t.name not in self.ignore_terms})", "LARK-VOCAB")
+v("graph-E-skips-selfloops", ["C11", "C13", "C12"], "wfsa/base.py", "            if a == EPSILON:\n                E[i, j] += w", "            if a == EPSILON and i != j:\n                E[i, j] += w", "ACCUM-GRAPH")
+v("graph-nodes-under-zero-test", ["C15", "C08", "C06"], "linear.py", "        self.N.add(i)\n        self.N.add(j)\n        if value != self.WeightType.zero:\n", "        if value != self.WeightType.zero:\n            self.N.update(item)\n", "ACCUM-GRAPH")
+v("closure-buffer-not-cleared", ["C15", "C11", "C06"], "linear.py", "        for j in N:\n            new.clear()\n", "        for j in N:\n", "FACTOR-SOLVE")
+v("closure-benign-fresh-buffer", ["C15", "C11", "C06"], "linear.py", "        for j in N:\n            new.clear()\n", "        for j in N:\n            new = self.WeightType.chart()\n", None)
+v("compose-start-from-arcs", ["C09", "C03"], "cfg.py", "        start = {I for (I, _) in C}", "        start = {i for (i, _, _, _) in fst.arcs()}", "TAB-SPECIAL")
+v("compose-benign-start-states", ["C09", "C03"], "cfg.py", "        start = {I for (I, _) in C}", "        start = set(fst.states)", None)
+v("bytes-eps-selfloop-dropped", ["C17", "C19"], "wfsa/base.py", "            if a == EPSILON:\n                byte_wfsa.add_arc(i, a, j, w)", "            if a == EPSILON:\n                if i != j:\n                    byte_wfsa.add_arc(i, a, j, w)", "FACTOR-BYTES")
+v("cfg-bytes-piecewise", ["C17", "C19"], "cfg.py", "                    bs = list(x.encode(\"utf-8\"))\n                    for b in bs:\n                        new.V.add(b)\n", "                    for c in x:\n                        bs = list(c.encode(\"utf-8\"))\n                        new.V.update(bs)\n", "ENC-UTF8")
+v("icky-base-tuple-key", ["C02", "C04", "C01"], "parse/cky.py", "            tmp[0][0][self.cfg.S] = self.nullary", "            tmp[0][0, self.cfg.S] = self.nullary", "FACTOR-ICKY")
+v("order-from-dependency-graph", ["C02", "C04"], "parse/earley.py", "self.order = cfg._unary_graph_transpose().buckets", "self.order = cfg.dependency_graph().buckets", "DEP-ORDER")
+v("memo-evict-during-fill", ["C05", "C04"], "parse/cky.py", "            for m in range(n, len(prefix) + 1):\n                p = prefix[:m]", "            if len(self._chart) > 1000:\n                self.clear_cache()\n            for m in range(n, len(prefix) + 1):\n                p = prefix[:m]", "MEMO-KEY")
+v("unfold-remove-by-equality", ["C06", "C02"], "cfg.py", "        for j, r in enumerate(self):\n            if j != i:\n                new.add(r.w, r.head, *r.body)", "        rest = list(self.rules)\n        rest.remove(s)\n        for r in rest:\n            new.add(r.w, r.head, *r.body)", "MULTISET")
+v("rule-eq-ignores-weight", ["C06", "C02"], "cfg.py", "            isinstance(other, Rule)\n            and self.w == other.w\n", "            isinstance(other, Rule)\n", "MULTISET")
+v("nullable-by-metric", ["C06", "C08"], "cfg.py", "                null_weight[x] == self.R.zero or x == self.S", "                self.R.metric(null_weight[x], self.R.zero) <= 1e-12 or x == self.S", "TOL-SITE")
+v("separate-start-consults-trim", ["C07", "C06"], "cfg.py", "        if self.S in {y for r in self for y in r.body}:", "        if self.S in {y for r in self.trim() for y in r.body}:", "LIVE-RULES")
+v("derivative-level-dropped", ["C03"], "cfg.py", "                        slash(r.body[k], a),", "                        Slash(r.body[k], a, 0),", "ACCUM-DELTA")
